@@ -35,6 +35,8 @@ CODES = {1: "model accepts, implementation rejects", 2: "model rejects, implemen
          4: "constants differ", 5: "time constants differ", 6: "flags differ", 7: "description differs",
          8: "IS_GLOBAL_ANALYSIS differs", 9: "dictionary at rejection differs"}
 # documentation mismatches the design records as observations (not defects): see DESIGN.md C13
+HEAD_CODES = {1: "derived column differs", 2: "only one side treats the key as a head-count override",
+              3: "override reached the table although the model says the row labels differ"}
 README_ONLY = {("ratio_stocks_untouched", "no_stored_food_between_years")}
 
 
@@ -393,6 +395,13 @@ def eval_cases(ctx, name, terms_by_row, rowdefs):
 
 def run(ctx):
     ctx.level = "proof"
+    ctx.notes["explanation"] = ("proved over the regenerated tables for all inputs: exactly-once (pairs and histories), check_all_set "
+                                "after every accepted dispatch, rejection of missing keys and unknown values, acceptance of every "
+                                "dispatched literal on a witness configuration, documented literal tables, head-count key derivation. "
+                                "Partial: the override frame is evaluated in the kernel on two witness configurations only and "
+                                "otherwise covered by the differential and the audit; refuted (finding): the head-count override "
+                                "does not reach the table for the remapped country code SWT; caller-dictionary immutability is "
+                                "checked on the implementation only (the model is functional).")
     ctx.rule = ("case = (option dictionary, country row or none) for the dispatch, or (sequence of direct setter calls, row) for "
                 "histories, or (constants key, country code) for the head-count override; families x values, same-family ordered "
                 "pairs, required keys and species are enumerated exhaustively, rows / numeric values / random configurations are drawn "
@@ -477,7 +486,7 @@ def correspondence(ctx, info):
         if code != 0:
             nbad += 1
             if nbad <= 4:
-                what = CODES.get(code, str(code))
+                what = (HEAD_CODES if stream == "head" else CODES).get(code, str(code))
                 ctx.tie_ok = False
                 ctx.broken.append(f"correspondence {stream}: {what}")
                 small = {k: v for k, v in r.items() if k not in ("consts", "tconsts")}
